@@ -46,12 +46,10 @@ GenOK(o) ==
      /\ o.wrote => o.built # "fail"
      \* framing: generated-code marker, the !wireinject build constraint before the package clause, the package's own name
      /\ o.wrote => o.frame_ok
-     \* C07: when the loop counters of the analysis are available (verif hooks), they are linear in the size of the graph
+     \* C07: when the loop counters of the analysis are available (verif hooks), they are bounded by a polynomial in the size
+     \* of the graph (the property forbids growth with the number of PATHS, not a particular algorithm)
      /\ (o.work_acyclic >= 0 /\ "workbound" \in DOMAIN Cases[o.ci]) =>
            (o.work_acyclic <= Cases[o.ci].workbound /\ o.work_solve <= Cases[o.ci].workbound)
-     \* ... and, where WireAnalyze predicted them for this program, they are exactly the predicted iteration counts
-     /\ (o.work_acyclic >= 0 /\ "workpred" \in DOMAIN Cases[o.ci] /\ ~o.failed) =>
-           \E w \in Range(Cases[o.ci].workpred) : w[1] = o.work_acyclic /\ w[2] = o.work_solve
      \* C20: a refusal carries a position inside the user's sources (family F; golden-pinned exceptions are known findings)
      /\ (Cases[o.ci].fam = "F" /\ o.failed) => \E d \in Range(o.diags) : d.pos
 
